@@ -720,6 +720,8 @@ func (s *SwitchFeatures) MarshalBinary() (data []byte, err error) {
 	bytes, err = s.Header.MarshalBinary()
 	copy(data[next:], bytes)
 	next += len(bytes)
+	copy(data[next:], s.DPID)
+	next += len(s.DPID)
 	binary.BigEndian.PutUint32(data[next:], s.Buffers)
 	next += 4
 	data[next] = s.NumTables
